@@ -4,7 +4,7 @@ CONSTANTS
   PlainKeys = {"a"}
   SeqKeys = {"s"}
   MaxSeq = 2
-  MaxRev = 3
+  MaxRev = 2
   PlainFmts = {0, 1, 2}
   SeqFmts = {0, 1, 2, 3}
   PredefRev = 1
